@@ -2,6 +2,7 @@ use crate::{
     core::prelude::*,
     errors::prelude::*,
     extensions::prelude::*,
+    validators::prelude::*,
 };
 use crate::prelude::Numeric;
 
@@ -36,6 +37,7 @@ impl <T: ArrayElement> ArrayTiling<T> for Array<T> {
 
     fn repeat(&self, repeats: &[usize], axis: Option<usize>) -> Result<Self, ArrayError> {
         if let Some(axis) = axis {
+            self.axis_in_bounds(axis)?;
             let repeats = repeats.to_vec().to_array()?.broadcast_to(vec![self.get_shape()?[axis]]).get_elements()?;
             let new_axis_len = repeats.clone().into_iter().sum();
             let new_shape = self.get_shape()?.update_at(axis, new_axis_len);
